@@ -449,6 +449,11 @@ def three_ways_judge(ck: Check, camp, rn: Runner, opts: dict, res: dict, baselin
     ck.fail(cls, inp, obs, "byte-identical output and equal exit status for the three ways")
 
 
+# Known finding D22 (C01 / C07): with this value NO route returns (the three ways agree: all hang until the watchdog
+# fires, 3 × 120 s of CPU). The thorough tier runs it and records "all-three-ways-hang"; the quick sample leaves it out.
+NEVER_RETURNS = [{"special_field_name_prefix": "0"}]
+
+
 def e2e_options(ck: Check, rn: Runner) -> list[dict]:
     tab = rn.tab
     all_opts: list[dict] = []
@@ -475,7 +480,7 @@ def e2e_options(ck: Check, rn: Runner) -> list[dict]:
     picked = always + rng.sample([o for o in coupled if o not in always], 1) + rng.sample(falsy, 2) + rng.sample(rewritten, 1)
     strata: dict[str, list[dict]] = {}
     for o in all_opts:
-        if o in coupled or o in falsy or o in rewritten:
+        if o in coupled or o in falsy or o in rewritten or o in NEVER_RETURNS:
             continue
         strata.setdefault(tab[sorted(o)[0]]["kind"], []).append(o)
     quota = {"bool": 2, "enum": 1, "enumlist": 1, "text": 1}
@@ -832,9 +837,11 @@ def known_findings(ck: Check, rn: Runner) -> None:
 
 def run(ck: Check) -> None:
     from . import c18_env, c18_kv, c18_repeat
+    from . import c18_pool
     from .c18_pool import run_parts
 
     quick = ck.tier == "quick"
+    c18_pool.WATCHDOG_S[0] = 60.0 if quick else 120.0   # a child normally takes 2 s (10 s on a loaded machine)
     ck.translate("CliTables", cli_tables.generate())
     ck.prove()
     ck.assumptions += [
